@@ -12,6 +12,12 @@ pub mod m10 { average::define_moments!(M10, 10); }
 pub mod m7 { average::define_moments!(M7, 7); }
 pub mod m9 { average::define_moments!(M9, 9); }
 pub mod m12 { average::define_moments!(M12, 12); }
+pub mod m3 { average::define_moments!(M3, 3); }
+pub mod m13 { average::define_moments!(M13, 13); }
+pub mod m16 { average::define_moments!(M16, 16); }
+pub use m13::M13;
+pub use m16::M16;
+pub use m3::M3;
 pub use m12::M12;
 pub use m7::M7;
 pub use m9::M9;
@@ -34,6 +40,8 @@ average::define_histogram!(h17, 17);
 average::define_histogram!(h25, 25);
 average::define_histogram!(h64, 64);
 average::define_histogram!(h255, 255);
+average::define_histogram!(h70000, 70000);
+pub use h70000::Histogram as H70000;
 pub use h16::Histogram as H16;
 pub use h17::Histogram as H17;
 pub use h25::Histogram as H25;
@@ -50,7 +58,7 @@ pub use h3::Histogram as H3;
 pub use h4::Histogram as H4;
 
 #[derive(Clone, Debug, PartialEq)]
-pub enum Val { F(f64), I(i64), B(bool), Panic }
+pub enum Val { F(f64), I(i128), B(bool), Panic }
 impl Val {
     pub fn word(&self) -> String {
         match self { Val::F(x) => fw(*x), Val::I(i) => iw(*i), Val::B(b) => bw(*b), Val::Panic => "panic".into() }
@@ -88,21 +96,29 @@ pub trait Est: Clone + std::fmt::Debug + Default {
     fn from_value(_x: f64) -> Option<Self> { None }
     /// a copy that went through serialisation and back (None when the state cannot be written as JSON)
     fn roundtrip(&self) -> Option<Self>;
+    /// the same through the positional binary format (`binfmt`), which can carry every state
+    fn roundtrip_bin(&self) -> Option<Self>;
+    /// a rayon parallel collect of the kept items (`keep[i]` false: filtered away inside the parallel iterator)
+    fn from_par(v: &[f64], keep: &[bool]) -> Self;
 }
 
 macro_rules! ingest_impl {
     () => {
         fn roundtrip(&self) -> Option<Self> { serde_json::to_string(self).ok().and_then(|js| serde_json::from_str(&js).ok()) }
+        fn roundtrip_bin(&self) -> Option<Self> { crate::binfmt::to_bytes(self).ok().and_then(|b| crate::binfmt::from_bytes(&b).ok()) }
+        fn from_par(v: &[f64], keep: &[bool]) -> Self { use rayon::prelude::*; v.par_iter().zip(keep.par_iter()).filter(|(_, k)| **k).map(|(x, _)| *x).collect() }
         fn from_iter_val(v: &[f64]) -> Self { v.iter().cloned().collect() }
         fn from_iter_ref(v: &[f64]) -> Self { v.iter().collect() }
         fn extend_val(&mut self, v: &[f64]) { self.extend(v.iter().cloned()) }
         fn extend_ref(&mut self, v: &[f64]) { self.extend(v.iter()) }
         fn from_iter_lazy(v: &[f64]) -> Self { v.iter().cloned().filter(|_| true).collect() }
         fn extend_lazy(&mut self, v: &[f64], kind: usize) {
-            match kind % 3 {
+            match kind % 4 {
                 0 => self.extend(v.iter().cloned().filter(|_| true)),
                 1 => self.extend(v.iter().take_while(|_| true)),
-                _ => { let mut i = 0; self.extend(std::iter::from_fn(|| { let r = v.get(i).cloned(); i += 1; r })) }
+                2 => { let mut i = 0; self.extend(std::iter::from_fn(|| { let r = v.get(i).cloned(); i += 1; r })) }
+                // an iterator that is not fused: after its first None it would yield again - a consumer must stop at the None
+                _ => { let mut i = 0; let n = v.len(); self.extend(std::iter::from_fn(|| { i += 1; if i <= n { Some(v[i - 1]) } else if i == n + 1 || i > n + 4 { None } else { Some(1e9 * i as f64) } })) }
             }
         }
     };
@@ -115,7 +131,7 @@ impl Est for average::Mean {
     fn merge(&mut self, o: &Self) { Merge::merge(self, o) }
     fn len(&self) -> Option<u64> { Some(average::Mean::len(self)) }
     fn accessors(&self) -> Vec<Acc> {
-        vec![acc("mean", "mean", Val::F(self.mean())), acc("len", "len", Val::I(self.len() as i64)),
+        vec![acc("mean", "mean", Val::F(self.mean())), acc("len", "len", Val::I(self.len() as i128)),
              acc("is_empty", "", Val::B(self.is_empty())), acc("estimate", "", Val::F(Estimate::estimate(self)))]
     }
     ingest_impl!();
@@ -130,7 +146,7 @@ impl Est for average::Variance {
     fn merge(&mut self, o: &Self) { Merge::merge(self, o) }
     fn len(&self) -> Option<u64> { Some(average::Variance::len(self)) }
     fn accessors(&self) -> Vec<Acc> {
-        vec![acc("mean", "mean", Val::F(self.mean())), acc("len", "len", Val::I(self.len() as i64)),
+        vec![acc("mean", "mean", Val::F(self.mean())), acc("len", "len", Val::I(self.len() as i128)),
              acc("is_empty", "", Val::B(self.is_empty())),
              acc("sample_variance", "samplevar", Val::F(self.sample_variance())),
              acc("population_variance", "popvar", Val::F(self.population_variance())),
@@ -150,7 +166,7 @@ impl Est for average::Skewness {
     fn merge(&mut self, o: &Self) { Merge::merge(self, o) }
     fn len(&self) -> Option<u64> { Some(average::Skewness::len(self)) }
     fn accessors(&self) -> Vec<Acc> {
-        vec![acc("mean", "mean", Val::F(self.mean())), acc("len", "len", Val::I(self.len() as i64)),
+        vec![acc("mean", "mean", Val::F(self.mean())), acc("len", "len", Val::I(self.len() as i128)),
              acc("is_empty", "", Val::B(self.is_empty())),
              acc("sample_variance", "samplevar", Val::F(self.sample_variance())),
              acc("population_variance", "popvar", Val::F(self.population_variance())),
@@ -170,7 +186,7 @@ impl Est for average::Kurtosis {
     fn merge(&mut self, o: &Self) { Merge::merge(self, o) }
     fn len(&self) -> Option<u64> { Some(average::Kurtosis::len(self)) }
     fn accessors(&self) -> Vec<Acc> {
-        vec![acc("mean", "mean", Val::F(self.mean())), acc("len", "len", Val::I(self.len() as i64)),
+        vec![acc("mean", "mean", Val::F(self.mean())), acc("len", "len", Val::I(self.len() as i128)),
              acc("is_empty", "", Val::B(self.is_empty())),
              acc("sample_variance", "samplevar", Val::F(self.sample_variance())),
              acc("population_variance", "popvar", Val::F(self.population_variance())),
@@ -184,8 +200,8 @@ impl Est for average::Kurtosis {
     fn estimate(&self) -> Option<f64> { Some(Estimate::estimate(self)) }
 }
 
-pub const CM_STATS: [&str; 13] = ["cm0", "cm1", "cm2", "cm3", "cm4", "cm5", "cm6", "cm7", "cm8", "cm9", "cm10", "cm11", "cm12"];
-pub const SM_STATS: [&str; 13] = ["sm0", "sm1", "sm2", "sm3", "sm4", "sm5", "sm6", "sm7", "sm8", "sm9", "sm10", "sm11", "sm12"];
+pub const CM_STATS: [&str; 17] = ["cm0", "cm1", "cm2", "cm3", "cm4", "cm5", "cm6", "cm7", "cm8", "cm9", "cm10", "cm11", "cm12", "cm13", "cm14", "cm15", "cm16"];
+pub const SM_STATS: [&str; 17] = ["sm0", "sm1", "sm2", "sm3", "sm4", "sm5", "sm6", "sm7", "sm8", "sm9", "sm10", "sm11", "sm12", "sm13", "sm14", "sm15", "sm16"];
 
 macro_rules! moments_impl {
     ($t:ty, $name:expr, $n:expr) => {
@@ -197,11 +213,12 @@ macro_rules! moments_impl {
             fn merge(&mut self, o: &Self) { Merge::merge(self, o) }
             fn len(&self) -> Option<u64> { Some(<$t>::len(self)) }
             fn accessors(&self) -> Vec<Acc> {
-                let mut v = vec![acc("mean", "mean", Val::F(self.mean())), acc("len", "len", Val::I(self.len() as i64)),
+                let mut v = vec![acc("mean", "mean", Val::F(self.mean())), acc("len", "len", Val::I(self.len() as i128)),
                     acc("is_empty", "", Val::B(self.is_empty())),
                     acc("sample_variance", "samplevar", Val::F(self.sample_variance())),
-                    acc("sample_skewness", "sskew", guarded(|| self.sample_skewness())),
-                    acc("sample_excess_kurtosis", "sexkurt", guarded(|| self.sample_excess_kurtosis()))];
+                    acc("sample_skewness", "sskew", guarded(|| self.sample_skewness()))];
+                // (an estimator of order three has no fourth moment: the accessor asserts p <= N, by design)
+                if $n >= 4 { v.push(acc("sample_excess_kurtosis", "sexkurt", guarded(|| self.sample_excess_kurtosis()))); }
                 for p in 0..=$n {
                     v.push(acc(&format!("central_moment:{}", p), CM_STATS[p], guarded(|| self.central_moment(p))));
                     v.push(acc(&format!("standardized_moment:{}", p), SM_STATS[p], guarded(|| self.standardized_moment(p))));
@@ -220,6 +237,9 @@ moments_impl!(M10, "M10", 10);
 moments_impl!(M7, "M7", 7);
 moments_impl!(M9, "M9", 9);
 moments_impl!(M12, "M12", 12);
+moments_impl!(M3, "M3", 3);
+moments_impl!(M13, "M13", 13);
+moments_impl!(M16, "M16", 16);
 // the crate's own instantiation
 impl Est for average::Moments4 {
     const NAME: &'static str = "M4";
@@ -229,7 +249,7 @@ impl Est for average::Moments4 {
     fn merge(&mut self, o: &Self) { Merge::merge(self, o) }
     fn len(&self) -> Option<u64> { Some(average::Moments4::len(self)) }
     fn accessors(&self) -> Vec<Acc> {
-        let mut v = vec![acc("mean", "mean", Val::F(self.mean())), acc("len", "len", Val::I(self.len() as i64)),
+        let mut v = vec![acc("mean", "mean", Val::F(self.mean())), acc("len", "len", Val::I(self.len() as i128)),
             acc("is_empty", "", Val::B(self.is_empty())),
             acc("sample_variance", "samplevar", Val::F(self.sample_variance())),
             acc("sample_skewness", "sskew", guarded(|| self.sample_skewness())),
@@ -275,6 +295,8 @@ impl Est for average::Max {
     fn from_iter_lazy(v: &[f64]) -> Self { v.iter().cloned().filter(|_| true).collect() }
     fn extend_lazy(&mut self, v: &[f64], _kind: usize) { for x in v { Estimate::add(self, *x) } }
     fn roundtrip(&self) -> Option<Self> { serde_json::to_string(self).ok().and_then(|js| serde_json::from_str(&js).ok()) }
+    fn roundtrip_bin(&self) -> Option<Self> { crate::binfmt::to_bytes(self).ok().and_then(|b| crate::binfmt::from_bytes(&b).ok()) }
+    fn from_par(v: &[f64], keep: &[bool]) -> Self { use rayon::prelude::*; v.par_iter().zip(keep.par_iter()).filter(|(_, k)| **k).map(|(x, _)| *x).collect() }
     fn from_value(x: f64) -> Option<Self> { Some(average::Max::from_value(x)) }
     fn headline(&self) -> Option<(String, f64)> { Some(("max".into(), self.max())) }
     fn estimate(&self) -> Option<f64> { Some(Estimate::estimate(self)) }
